@@ -292,9 +292,11 @@ func gen(t *rapid.T) Case {
 		c.Args = append(c.Args, Arg{Text: a})
 	}
 	_ = failing
-	// A glob whose expansion contains a directory: whether that directory is
-	// "an input" (and so a read error) is not fixed by the statement - leave
-	// such patterns out (an explicit directory argument stays in).
+	// A glob whose expansion contains a directory: "each glob expansion .. is opened and read", so the
+	// directory is an input that fails while being read (one read error, exit status 2), exactly like a
+	// directory named explicitly. Kept in 2 of 3 cases (it makes the whole run exit 2, which would otherwise
+	// crowd out the exit-status classes 0 and 1).
+	keepDirGlobs := rapid.IntRange(0, 2).Draw(t, "dirglobs") != 0
 	tr := &tree{dirs: map[string]bool{}, files: map[string]*File{}}
 	for _, d := range c.Dirs {
 		if d != "" {
@@ -314,8 +316,7 @@ func gen(t *rapid.T) Case {
 				}
 			}
 		}
-		if drop {
-			pbt.Exclude("glob-matching-a-directory")
+		if drop && !keepDirGlobs {
 			continue
 		}
 		kept = append(kept, a)
@@ -785,6 +786,15 @@ func check(c Case) error {
 		o.Label(c.StdinFail != "", "stdin-read-fails")
 		o.Label(c.Histo, "histo(parse-error-exit-path)")
 		o.Label(parseErrors > 0, "parse-errors")
+		for _, a := range c.Args {
+			if hasMeta(a.Text) {
+				for _, m := range ms {
+					if m.dir && m.name != a.Text {
+						o.Label(true, "glob-expansion-holds-a-directory")
+					}
+				}
+			}
+		}
 		for _, m := range ms {
 			o.Label(m.dir, "directory-as-file")
 			o.Label(!m.dir && m.file == nil, "missing-path")
